@@ -10,7 +10,7 @@ import (
 
 // vhStreamFrame builds request frame number i of the stream; kind: 0 FC3 read (12 bytes), 1 FC6 write (12 bytes),
 // 2 FC16 write of 2 registers (17 bytes), 3 a function the library does not support (0x2B, 12 bytes),
-// 4 FC3 with an out-of-range quantity (12 bytes). Header fields, addresses and values are symbolic.
+// 4 FC3 with an out-of-range quantity (12 bytes), 5 / 6 FC16 writes of 123 / 110 registers (260 / 233 bytes). Header fields, addresses and values are symbolic.
 func vhStreamFrame(kind int) []byte {
 	th, tl := vndU8("tidhi"), vndU8("tidlo")
 	unit := vndU8("unit")
@@ -28,6 +28,15 @@ func vhStreamFrame(kind int) []byte {
 		return []byte{th, tl, 0, 0, 0, 6, unit, 0x2B, b[0], b[1], b[2], b[3]}
 	case 4:
 		return []byte{th, tl, 0, 0, 0, 6, unit, 3, b[0], b[1], 0xFF, b[2]}
+	case 5, 6:
+		// the largest write request there is (FC16, 123 registers: a 260-byte frame), or one of 110 registers (233
+		// bytes): with another request behind it more than one maximal frame is buffered at once
+		n := 123
+		if kind == 6 {
+			n = 110
+		}
+		f := []byte{th, tl, 0, 0, byte((7 + 2*n) >> 8), byte(7 + 2*n), unit, 16, b[0], b[1], 0, byte(n), byte(2 * n)}
+		return append(f, vndBytes("registers", 2*n, 0)...)
 	}
 	vndAssume(false)
 	return nil
@@ -95,7 +104,7 @@ func VH_C15_segmentation() {
 	vndCover("stream-done")
 	handled := 0
 	for i := 0; i < m; i++ {
-		if kinds[i] <= 2 {
+		if kinds[i] <= 2 || kinds[i] >= 5 {
 			handled++
 		}
 	}
